@@ -70,6 +70,10 @@ package ice
 //@   site call EnqueueConnectionState#1 assert C04 only-on-change: old(a.connectionState) != newState
 //@   site call EnqueueConnectionState#1 assert C04 C06 released-before-failed: newState == ConnectionStateFailed ==> len(a.checklist) == 0 && len(a.pairsByID) == 0 && len(a.pendingBindingRequests) == 0
 //@   site call EnqueueConnectionState#1 assert C06 C09 no-candidate-survives-the-failure: newState == ConnectionStateFailed ==> forall k NetworkType :: !has(a.localCandidates, k) && !has(a.remoteCandidates, k)
+//@   site call EnqueueConnectionState#1 assert C04 C06 C03 no-selection-survives-the-failure: newState == ConnectionStateFailed ==> a.getSelectedPair() == nil
+//@   ghostvar muxCleared bool = false
+//@   site call removeUfragFromMux#1 ghost muxCleared := true
+//@   site call EnqueueConnectionState#1 assert C09 C06 the-muxes-forget-the-failed-generation: newState == ConnectionStateFailed ==> muxCleared
 //@   ensures C04 same-state-is-silent: old(a.connectionState) == newState ==> unchangedExcept()
 //@   ensures C04 state-stored: a.connectionState == newState
 //@   ensures C04 every-entry-into-checking-starts-a-new-deadline-epoch: a.checkingEpoch == (old(a.checkingEpoch) + ite(newState == ConnectionStateChecking && old(a.connectionState) != newState, 1, 0)) % 18446744073709551616
@@ -100,6 +104,12 @@ package ice
 //@   props C04 C17
 //@   site call startedFn#1 assert C17 pairs-formed-before-the-role-was-known-follow-it: pairsFollowRole(a) && (a.isControlling != 0) == isControlling
 //@   site call updateConnectionState#1 assert start-enters-checking: arg1 == ConnectionStateChecking
+//@   site call startedFn#1 assert C02 the-credentials-this-start-was-given-are-in-place-before-the-agent-counts-as-started: a.remoteUfrag == remoteUfrag && a.remotePwd == remotePwd
+//@   site call startedFn#1 assert C03 C05 the-selector-is-the-one-of-the-role-this-start-was-given: (a.isControlling != 0) == isControlling && (!a.lite ==> (isControlling ==> istype(a.selector, *controllingSelector)) && (!isControlling ==> istype(a.selector, *controlledSelector)))
+//@   ghostvar spawnedChecks bool = false
+//@   site call connectivityChecks#1 assert C04 the-periodic-checks-run-beside-the-loop-not-on-it: spawned
+//@   site call connectivityChecks#1 ghost spawnedChecks := true
+//@   ensures C04 a-started-agent-has-its-periodic-checks-running: spawnedChecks
 
 // Where the liveness timeouts come from: a configured value (zero included: it
 // disables the transition) is taken as is and counts as explicit, otherwise the default
